@@ -135,9 +135,11 @@ def run(sc: Dict[str, Any]) -> Dict[str, Any]:
         pit.train_net_and_nas()
         pit.discrete_cost = bool(cfg.get("discrete", False))
         # un-padded Conv1d layers: pruning taps would change their output length (documented as unsupported), so a
-        # user searches their channels only - switch their rf / dilation search off, as the per-layer switches allow
+        # user searches their channels only - switch their rf / dilation search off, as the per-layer switches allow.
+        # C01 scenarios: the same for every layer that is not causally padded (C01 covers time pruning of causal layers)
         for i_, nd_ in enumerate(arch["nodes"], start=1):
-            if nd_["op"] == "conv" and nd_.get("valid") and arch["dim"] == 1 and not nd_["excl"] and not nd_["reuse"]:
+            if nd_["op"] == "conv" and arch["dim"] == 1 and not nd_["excl"] and not nd_["reuse"] and \
+                    (nd_.get("valid") or (props["C01"] and not nd_["causal"])):
                 ly_ = pitdrv.layer(pit, i_)
                 if hasattr(ly_, "train_rf"):
                     ly_.train_rf = False
